@@ -327,7 +327,9 @@ def run_model(case):
         if not r["active"]:
             settled[k] = (r["X"], r["Y"])  # rows are released in file order: row k gets pid k
     layout = case.get("layout", "sparse")
-    conf = drive.roms_conf(d, d / "f.nc", S0, S0 + 5 * DT, DT, rows, tracker=dict(advection=case["scheme"]), layout=layout)
+    # in half of the cases the configuration spells the flag's type out (`state: instance_variables: {active: bool}`), which changes nothing
+    state = dict(instance_variables=dict(active="bool")) if case["dir"] % 2 == 0 else None
+    conf = drive.roms_conf(d, d / "f.nc", S0, S0 + 5 * DT, DT, rows, tracker=dict(advection=case["scheme"]), layout=layout, state=state)
     bad, facts = [], dict(left=0, n=len(P))
     seen_alive = {}
     dead_after = {}  # step -> pids known to be dead once that step is complete
